@@ -211,8 +211,8 @@ def variants(base: dict, ref: dict, recipe: dict, rng: random.Random) -> list[di
     out = []
     nev = n_events(ref)
     stops = list(range(1, nev))  # stopping after the last event is a no-op
-    if base.get("rate") or base.get("profile_max"):
-        return []
+    if base.get("rate") or base.get("profile_max") or base.get("nan_target"):
+        return []      # (user code raising in teardown is run undisturbed: combined with a stop request it is outside the modelled fragment)
     if base.get("ctrlc_positions"):
         return [dict(base, ctrlc_at=k) for k in (2, 4, 6, 9, 13, 18)]
     if base.get("mf_fault"):
